@@ -7,7 +7,7 @@ import plotgen as G
 from common import fb, close, canon_hash
 
 ID = "C19"
-SECTIONS = ["ops"]
+SECTIONS = ["ops", "fitters", "plot"]
 LEAN_MODULES = ["QExPy.Props.C19"]
 THEOREMS = ["QExPy.Plot.C19_mask", "QExPy.Plot.C19_mask_none", "QExPy.Plot.C19_dataset_draw",
             "QExPy.Plot.C19_linspace", "QExPy.Plot.C19_band", "QExPy.Plot.C19_function_range",
@@ -31,8 +31,9 @@ ASSUMPTIONS = ["matplotlib draws what its artists hold (Agg rasterisation is not
                "of a 10000-sample mean, fixed seeds, second-order bias allowance): a test, not a proof",
                "theorems over the reals; binary64 rounding compared under the FB bound / 1e-9 relative"]
 TRUSTED = ["exercised not modelled: matplotlib artists API, numpy.histogram, numpy.linspace",
-           "fit formulas of the pre-set models are hand-mirrored from FITTERS and guarded by a "
-           "source-text comparison (vf/plotgen.py: fitters_guard)"]
+           "the fit formulas of the pre-set models are the generated Gen.fitRule (translator "
+           "section fitters); curve length, x-range mask test and axis-label format are generated "
+           "(section plot)"]
 LEVEL_TEXT = ("Lean 4 theorems about an executable render model (mask, linspace, domain, band, "
               "histogram totals, labels, order independence); correspondence-led: the model's draw "
               "commands are diffed with the matplotlib artists of the real plot on every run")
@@ -187,6 +188,17 @@ def judge(case, o, m):
     for a, mc, oi in zip(A["lines"], M["main"], main_src):
         ob = case["objs"][oi]
         if ob["t"] == "dataset":
+            if ob.get("range"):
+                # independent of the model and of every generated table: the property's own
+                # `low <= x < high`, evaluated in Python on the input
+                lo_, hi_ = ob["range"]
+                inside = [x for x in ob["xs"] if lo_ <= x < hi_]
+                if len(a["xs"]) != len(inside) or any(
+                        not _near(p_, q_) for p_, q_ in zip(a["xs"], inside)):
+                    fail("dataset:xrange", "object {}: the points drawn are not the points with "
+                         "{!r} <= x < {!r}".format(oi, lo_, hi_), indep=True, impl=a["xs"],
+                         expected=inside, clause="low <= x < high")
+                    return fails, False
             if not cmp_points("dataset", a, mc, oi):
                 return fails, False
             stats["points_compared"] += len(a["xs"])
@@ -343,6 +355,15 @@ def judge(case, o, m):
     labs = {"x": A["xlabel"], "y": A["ylabel"], "title": A["title"]}
     if R is not None:
         labs["resx"], labs["resy"] = R["xlabel"], R["ylabel"]
+    for ax_ in ("x", "y"):
+        # independent of the model: an overridden unit must appear as `[unit]` after the name
+        n_, u_ = case["over"].get(ax_ + "name"), case["over"].get(ax_ + "unit")
+        lab = labs[ax_] or ""
+        if u_ and (not lab.endswith("[" + u_ + "]") or (n_ and lab != n_ + "[" + u_ + "]")):
+            fail("label:format:" + ax_, "{} label is {!r}; the unit {!r} (name {!r}) must follow the "
+                 "name in brackets".format(ax_, lab, u_, n_ or "<from the data>"), indep=True, impl=lab,
+                 expected=(n_ or "<name>") + "[" + u_ + "]", clause="axis labels = name[unit]")
+            return fails, False
     for k, v in M["labels"].items():
         if labs.get(k) != v:
             fail("label:" + k, "{} label is {!r}, should be {!r}".format(k, labs.get(k), v),
@@ -393,12 +414,7 @@ def run_cases(ctx, cases):
     import qexpy as q
     if not G.self_test_parse_band(np):
         raise RuntimeError("fill_between polygon layout is not the one the artist reader expects")
-    ok, got = G.fitters_guard()
     failures, nontrivial, skipped = [], set(), 0
-    if not ok:
-        failures.append({"signature": "c19:fitters-source-changed", "kind": "disagreement",
-                         "what": "FITTERS differs from the source the model's fit formulas mirror",
-                         "impl": got, "expected": G._EXPECTED_FITTERS, "input": "qexpy/fitting/utils.py"})
     if len(cases) > 150:
         obs = _observe_parallel(cases)
     else:
